@@ -34,6 +34,8 @@ def jobs(tier, seed):
         out.append(('power.k=%d' % k, 'h_power', dict(k=k)))
         if k: out.append(('power-parent-child.k=%d' % k, 'h_power_child', dict(k=k)))
     out.append(('setformat', 'h_setformat', {}))
+    for cfg in ('bts+ms', '+child2', '+parent+child', '+ms-child'):
+        out.append(('dispatch.%s' % cfg, 'h_dispatch', dict(cfg=cfg)))
     for variant in ('tick-other', 'poweroff-other', 'child'):
         out.append(('isolation.%s' % variant, 'h_isolation', dict(variant=variant)))
     for op in ('recv', 'off', 'on'):
@@ -231,6 +233,34 @@ def h_hist(ctx, seq):
                 if op == 'off': pending = []
                 last_tick = None           # the clock restarts with the power cycle
                 ctx.check('op%d.power:queue' % i, len(trx._tx_queue) == len(pending))
+
+
+def h_dispatch(ctx, cfg):
+    """the clock thread's per-frame handler of the real fake_trx.Application reaches every transceiver: whatever subset is running
+    (parents and children independently), a burst queued for frame FN on a running transceiver is emitted by the tick FN, exactly
+    once and with that transceiver as source; nothing is emitted for the others"""
+    from . import c12
+    T = env.load(ctx, *TK)
+    with env.symbolic(ctx):
+        app, net, log = c12.mk_app(ctx, T, cfg)
+        fwd = Fwd(); app.burst_fwd = fwd
+        fn = ctx.int('fn', 0, HYPER - 1)
+        msgs = {}
+        for t in app.trx_list.trx_list:
+            t.running = bool(ctx.bool('%s.running' % t.name))
+            m = T.data_msg.TxMsg(fn=fn, tn=0, ver=0); m.pwr = 0; m.burst = None
+            t.tx_queue_append(m); msgs[t.name] = m
+        with ctx.no_raise('clck_handler:no-exception'):
+            app.clck_handler(fn)
+        for t in app.trx_list.trx_list:
+            mine = [(s_, m) for s_, m in fwd.calls if m is msgs[t.name]]
+            if t.running:
+                ctx.check('%s:emitted-once-in-its-frame' % t.name, len(mine) == 1, n=len(mine))
+                if mine: ctx.check('%s:emitted-by-its-own-transceiver' % t.name, mine[0][0] is t)
+            else:
+                ctx.check('%s:idle-emits-nothing' % t.name, len(mine) == 0, n=len(mine))
+        ctx.check('nothing-invented', len(fwd.calls) == sum(1 for t in app.trx_list.trx_list if t.running), n=len(fwd.calls))
+        x = ctx.int('dummy', 0, 1); ctx.check('dummy', x >= 0)
 
 
 def h_isolation(ctx, variant):
